@@ -361,7 +361,12 @@ func runC18(t *testing.T, rc *core.RunCtx) {
 				}
 			}
 			if !sameSet(src.ActiveStates(nil), piped) {
-				s.Fail("C18/diverged"+netSfx+"/BindAny", "active sets differ once the source stopped changing: src %s tgt %s", src.String(), tgt.String())
+				anyKind := "BindAny"
+				if netTarget && src.Is1(am.StateException) {
+					// (the forwarded Set keeps failing and comes back as an error)
+					anyKind = "BindAny-erroring"
+				}
+				s.Fail("C18/diverged"+netSfx+"/"+anyKind, "active sets differ once the source stopped changing: src %s tgt %s", src.String(), tgt.String())
 			}
 		default:
 			for _, p := range pairs {
